@@ -177,3 +177,11 @@ MUTANTS += [
     dict(prop="C20", name="result dims swapped", file=GO, old="        dims=(xdim, ydim),", new="        dims=(ydim, xdim),"),
     dict(prop="C20", name="y index looked up on the x axis", file=GO, old="                    get_coord_index(array, ydim, y, raise_error=False),", new="                    get_coord_index(array, xdim, y, raise_error=False),"),
 ]
+MUTANTS += [
+    dict(prop="C15", name="spectrogram advertises hop_size again (original defect)", file="audio/spectrograms.py", old="                step=(nperseg - noverlap) / samplerate,", new="                step=hop_size,"),
+    dict(prop="C15", name="clip length rounded instead of floored", file="audio/io.py", old="    samples = int(np.floor(duration * samplerate))", new="    samples = int(np.floor(duration * samplerate + 0.5))"),
+    dict(prop="C15", name="clip time axis starts at clip.start_time", file="audio/io.py", old="    start_time = offset / samplerate", new="    start_time = clip.start_time"),
+    dict(prop="C15", name="offset uses end_time", file="audio/io.py", old="    offset = int(np.floor(clip.start_time * samplerate))", new="    offset = int(np.floor(clip.end_time * samplerate))"),
+    dict(prop="C15", name="seek not clamped (original defect)", file="audio/io.py", old="        fp.seek(min(offset, fp.frames))", new="        fp.seek(offset)"),
+    dict(prop="C15", name="frequency step uses hop", file="audio/spectrograms.py", old="                step=samplerate / nperseg,", new="                step=samplerate / (nperseg - noverlap),"),
+]
